@@ -233,6 +233,56 @@ func (e *env) httpCache() {
 		}
 	}
 	e.httpViaJWKS()
+	e.httpHitKeepsLifetime()
+}
+
+// httpHitKeepsLifetime: the freshness lifetime of a stored response runs from the moment it was received; being served
+// from the cache must not start it again. One response with max-age=8 resp. Expires=Date+8s, a real pause of 3 s, then a
+// repeat that is answered from the cache: whatever that repeat writes to the cache must not live longer than what was
+// left (8 s - 3 s, +2 s slack). Only cache writes of requests that did NOT reach the server are judged, so a slow
+// machine (the pause taking longer than the lifetime) can only make the case trivial, never raise an alarm.
+func (e *env) httpHitKeepsLifetime() {
+	const lifetime, pause = 8, 3 * time.Second
+	for _, h := range []httpSpec{{MaxAge: ip(lifetime), Method: "GET"}, {Expires: strconv.Itoa(lifetime), Method: "GET"}} {
+		c := ck.NewMemory()
+		u := e.srv.URL + "/cc?" + h.query(e.next())
+		ep := endpoint.Endpoint{URL: u, Method: h.Method, HTTPCache: &endpoint.HTTPCache{Enabled: true}}
+		rec := &httpRec{Via: "endpoint.SendRequest, repeated after a pause", Backend: ck.BackendMemory, Response: h, URL: u, Freshness: h.freshness()}
+		do := func(name string) phaseObs {
+			c.SetPhase(name)
+			n0, s0 := c.Len(), e.srv.All()
+			t0 := time.Now()
+			ctx := cache.WithContext(zerolog.Nop().WithContext(context.Background()), c)
+			body, err := ep.SendRequest(ctx, nil, nil)
+			ph := phaseObs{Phase: name, T0: t0, T1: time.Now(), Outcome: ck.Outcome{Err: ck.ErrKind(err), Outputs: string(body)}, Events: c.EventsSince(n0), ServerCalls: e.srv.All() - s0}
+			rec.Phases = append(rec.Phases, ph)
+			return ph
+		}
+		r1 := do("r1")
+		_, _, sets := ck.Summary(r1.Events)
+		time.Sleep(pause)
+		r2 := do("r2-after-3s")
+		nontrivial := r1.Outcome.Err == "" && sets > 0 && r2.ServerCalls == 0
+		e.r.Case("http-hit-keeps-lifetime|"+h.name(), nontrivial)
+		e.r.Count("cases:http_cache", 1)
+		e.r.Count("real_sleep_cases", 1)
+		if !nontrivial {
+			continue
+		}
+		e.r.Count("nontrivial", 1)
+		e.r.Count("http_hits_after_a_real_pause", 1)
+		left := time.Duration(lifetime)*time.Second - pause
+		for _, ev := range r2.Events {
+			if ev.Op == "set" && ev.TTL > left+httpSlack {
+				rec.Findings = append(rec.Findings, finding{"httpcache-hit-extends-freshness",
+					fmt.Sprintf("the repeat %s later was answered from the cache and stored the response again with ttl=%s; only %s of its %ds lifetime were left", pause, ev.TTL, left, lifetime)})
+				break
+			}
+		}
+		for _, fd := range rec.Findings {
+			e.r.Violation(fd.Signature, fmt.Sprintf("http cache [%s] %s: %s", rec.Backend, rec.Response.name(), fd.What), rec)
+		}
+	}
 }
 
 func (e *env) runHTTP(rec *httpRec, c *ck.RecCache, run func(c *ck.RecCache) ck.Outcome) {
